@@ -204,6 +204,28 @@ func ruleDBSchema(c *Ctx, prefix string) {
 	if !upsert {
 		probs = append(probs, "insert statement does not replace an existing row (conflict policy `"+policy+"`): a renewal keeps the stale expiry or fails")
 	}
+	if um := regexp.MustCompile(`(?is)on\s+conflict\s*(\([^)]*\))?\s*do\s+update\s+set\s+(.*)$`).FindStringSubmatch(tail); um != nil && policy != "replace" {
+		// an upsert rewrites only the columns its SET list names: every written non-key
+		// column must be assigned the new row's value, or a renewal keeps the stale one
+		set := map[string]string{}
+		for _, a := range splitCols(regexp.MustCompile(`(?is)\s+where\s+.*$`).ReplaceAllString(um[2], "")) {
+			kv := strings.SplitN(a, "=", 2)
+			if len(kv) == 2 {
+				set[strings.ToLower(strings.TrimSpace(kv[0]))] = strings.ToLower(strings.TrimSpace(kv[1]))
+			}
+		}
+		for _, cn := range ins.Cols {
+			if has(pk, cn) {
+				continue
+			}
+			v, ok := set[strings.ToLower(cn)]
+			if !ok {
+				probs = append(probs, "the upsert's DO UPDATE SET list does not rewrite column "+cn+": a renewal leaves the stored "+cn+" stale")
+			} else if v != "excluded."+strings.ToLower(cn) {
+				probs = append(probs, "the upsert assigns column "+cn+" `"+v+"` instead of the new row's value (excluded."+cn+")")
+			}
+		}
+	}
 	if len(splitCols(im[6])) != len(ins.Cols) {
 		probs = append(probs, "number of placeholders differs from the number of columns")
 	}
